@@ -151,16 +151,22 @@ def solve(q, kw, **over):
 
 
 def repeat_first():
-    """re-solve the first solves of the run after everything else has run in this process: (index, max abs difference) of
-    those that no longer give bit-identical fields - nothing of the solves in between may survive in the process"""
+    """re-solve the first solves of the run after everything else has run in this process: (index, max relative difference)
+    of those that no longer give the same fields - nothing of the solves in between may survive in the process.  The
+    comparison is to rounding (1e-10 of the field scale in double, 1e-4 in single precision), not bit for bit: the source is
+    a copy at another address, and FFTW picks its code path by the alignment of its input."""
     steady, _ = _import()
     bad = []
     for i, (q, k, conc0, flx0) in enumerate(FIRST):
         k = dict(k)
         _, conc, flx = steady(q, k.pop("z"), k.pop("profiles"), k.pop("domain"), k.pop("levels"), **k)
         conc, flx = np.asarray(conc), np.asarray(flx)
-        if conc.shape != conc0.shape or not (np.array_equal(conc, conc0, equal_nan=True) and np.array_equal(flx, flx0, equal_nan=True)):
-            d = float(max(np.max(np.abs(conc - conc0)), np.max(np.abs(flx - flx0)))) if conc.shape == conc0.shape else float("nan")
+        if conc.shape != conc0.shape:
+            bad.append((i, float("nan")))
+            continue
+        tol = 1e-10 if k.get("precision", "single") == "double" else 1e-4
+        d = max(float(np.max(np.abs(conc - conc0))) / max(float(np.max(np.abs(conc0))), 1e-300), float(np.max(np.abs(flx - flx0))) / max(float(np.max(np.abs(flx0))), 1e-300))
+        if not d <= tol:
             bad.append((i, d))
     return bad
 
